@@ -108,6 +108,20 @@ CLAIMED = {
              'stored under the type code only) => compositionality by list induction; attribute-order independence checked on permuted reference encodings.',
         note='T5 (list induction); other list kinds on enumerated shapes or termination only (see evidence assumptions)',
         ref='5 C15'),
+    'C16': dict(
+        text='(a) per /peer/ route of the file on disk: auth.login_required is the decorator directly inside blueprint.route and get_pw returns the '
+             'password only for the configured user; (b) _ready_to_send_msg <=> Established, every sending / table view sits behind '
+             'makesure_peer_establish, and the update / route-refresh / bin-update views do nothing but answer failure unless Established '
+             '(real view bodies, symbolic session state); (c) the update view hands exactly the requested message plus only LOCAL_PREF 100 on '
+             'iBGP when absent to BGP.send_update, whose contract writes exactly the constructed octets to the current connection.',
+        note='T3-flask (routing, HTTPBasicAuth.login_required => 401 without calling the view), T2; Update.construct through an assumed abstract contract',
+        ref='5 C16'),
+    'C17': dict(
+        text='for 17 extended-community encodings (13 text kinds) with every field symbolic: ExtCommunity.parse(RFC octets) == [text]; the real '
+             'update view translates that text to the item ExtCommunity.construct needs; ExtCommunity.construct(item) == RFC octets. Communities '
+             '(every well-known name, all a:b) and large communities: construct/parse contracts. String handling runs on structured strings.',
+        note='traffic-rate (IEEE float) not covered; 4-octet-AS targets need the peer capability as the view demands; LARGE_COMMUNITIES flag octet is an open known finding',
+        ref='5 C17'),
 }
 checks = []
 for pid, c in CLAIMED.items():
